@@ -117,7 +117,7 @@ def sepj(name, part, gapmode, **kw):
 B_SEP = 'all 2 gap types x 8 directions x 2 relations (x 7 transforms); node centres integers in [-20,20]^2, node sizes even integers in [2,12]; '
 GM = {0: 'gap any multiple of 1/2 in (0,12.5]', 1: 'gap = +0.0', 2: 'gap = -0.0'}
 JOBS['C18'] = {'quick': [sepj('%s-gap%d' % (n, g), p, g, bounds=B_SEP + GM[g] + '; ' + d)
-                         for (p, n, d) in ((0, 'commute', 'transform/geometry equivalence'), (1, 'group', 'dihedral group laws'), (2, 'storage-vpsc', '(a,b)/(b,a) storage and generated vpsc constraints'))
+                         for (p, n, d) in ((0, 'commute', 'transform/geometry equivalence'), (1, 'group', 'dihedral group laws'), (2, 'storage-vpsc', '(a,b)/(b,a) storage and generated vpsc constraints'), (3, 'restore-history', 'history: an existing pair (created under either order) overwritten through either order equals a fresh store'))
                          for g in (0, 1, 2)],
                'thorough': []}
 ASSUMPTIONS['C18'] = ['TGLF write/read round trip is outside the claim: iostream formatting/parsing is stubbed in the executor (DESIGN.md 2.5)',
@@ -139,3 +139,61 @@ JOBS['C19'] = {
 }
 ASSUMPTIONS['C19'] = ['peel is specified for connected graphs (disconnected inputs trip its internal assertion: precondition, see DESIGN.md 7.4)',
                       'std::unordered containers / hashing are modelled (engine/strmodels.py); results that depended on hash iteration order would show up as native/symbolic output mismatches']
+
+# ----------------------------------------------------------------------------------------------- C09
+def ovl(name, mode, nr, extra=(), **kw):
+    return Job(name, 'C09_overlap.cpp', ['-DMODE=%d' % mode, '-DNR=%d' % nr] + list(extra), ['libvpsc'], **kw)
+B_OVL = 'rectangle min corners integers in [0,6]^2, widths/heights integers in [1,3] (identical, nested, touching and grid-tie placements included); '
+JOBS['C09'] = {
+    'quick': [
+        ovl('gen-n2', 0, 2, bounds=B_OVL + '2 rectangles; generateX/YConstraints acyclic + two-stage universally quantified placement claim (placements any multiples of 1/2 in [-12,18])'),
+        ovl('remove-n2', 1, 2, bounds=B_OVL + '2 rectangles; removeoverlaps(rs)'),
+    ],
+    'thorough': [],
+}
+ASSUMPTIONS['C09'] = ['rectangles have positive width and height (generateYConstraints asserts minX < maxX)']
+
+# ----------------------------------------------------------------------------------------------- C07
+COLA_LIBS = ['libvpsc', 'libcola']
+CCN = {1: 'Separation', 2: 'Alignment', 3: 'Boundary', 4: 'Distribution', 5: 'MultiSeparation', 6: 'FixedRelative', 7: 'PageBoundary', 8: 'Separation+Alignment+EqSeparation'}
+def proj(cc, **kw):
+    return Job('project-' + CCN[cc], 'C07_project.cpp', ['-DCC=%d' % cc], COLA_LIBS, exclude=('libcola/output_svg.cpp',),
+               bounds='cola::projectOntoCCs, 3 rectangles with integer centre coordinates in [-20,20]^2, both dimensions; constraint class %s with symbolic integer gaps/offsets' % CCN[cc], **kw)
+JOBS['C07'] = {'quick': [proj(c) for c in (1, 2, 3, 8)], 'thorough': [proj(c) for c in (4, 5, 6, 7)]}
+ASSUMPTIONS['C07'] = ['the claim is about the projection layer (projectOntoCCs / solve); ConstrainedFDLayout::run ends every iteration with this projection, but its descent step (sqrt of symbolic distances) is outside the arithmetic of the executor -- composition stated, not proved (DESIGN.md 5/C07)']
+
+# ----------------------------------------------------------------------------------------------- C08 (+ C07 through makeFeasible)
+def feas(name, nr, flags, **kw):
+    return Job(name, 'C08_feasible.cpp', ['-DNR=%d' % nr] + ['-D' + f for f in flags], COLA_LIBS, exclude=('libcola/output_svg.cpp',),
+               bounds='ConstrainedFDLayout::makeFeasible, %d rectangles (sizes 10x6, 14x8, 18x10) with integer centres in [0,8]^2 (always overlapping initially), options: %s' % (nr, ' '.join(flags)), **kw)
+JOBS['C08'] = {'quick': [feas('feasible-n2-overlap', 2, ['OVERLAP']), feas('feasible-n2-overlap-sep', 2, ['OVERLAP', 'SEP'])],
+               'thorough': [feas('feasible-n3-overlap', 3, ['OVERLAP']), feas('feasible-n3-cluster', 3, ['OVERLAP', 'CLUSTER']), feas('feasible-n3-exempt', 3, ['OVERLAP', 'EXEMPT'])]}
+ASSUMPTIONS['C08'] = ['claim covers makeFeasible() (the feasibility phase); the subsequent run() descent uses sqrt of symbolic distances and is outside the executor arithmetic; run() re-projects onto the same constraints after every step (composition stated, not proved)']
+
+# ----------------------------------------------------------------------------------------------- C20
+def rep(name, subject, variant, extra=(), libs=('libvpsc',), **kw):
+    return Job(name, 'C20_repro.cpp', ['-DSUBJECT=%d' % subject, '-DVARIANT=%d' % variant] + list(extra), list(libs), **kw)
+RS = ['-DSRC=0,15,30,50', '-DDST=70,85,30,50', '-DR0=20,20,60,60']
+JOBS['C20'] = {
+    'quick': [
+        rep('vpsc-repeat-n3m3', 1, 0, bounds='IncSolver::solve n=3 m=3 all structures, run twice, second run under reversed heap address order; ' + B_VPSC),
+        rep('vpsc-translate-n3m2', 1, 1, ['-DNC=2'], bounds='IncSolver::solve n=3 m=2, problem translated by any multiple of 2^-10 in [-8,8]; ' + B_VPSC),
+        rep('overlaps-repeat-n2', 2, 0, bounds='removeoverlaps on 2 rectangles, second run under reversed heap address order; ' + B_OVL),
+        rep('route-repeat', 3, 0, RS, libs=['libavoid'], bounds='orthogonal routing scene (rectangle 20,20,60,60; endpoints in boxes left/right of it) routed twice, second under reversed heap address order'),
+        rep('route-translate', 3, 1, RS, libs=['libavoid'], bounds='same scene translated by (tx,ty), any multiples of 2^-10 in [-8,8]'),
+    ],
+    'thorough': [
+        rep('route-mirror', 3, 2, RS, libs=['libavoid'], bounds='same scene mirrored x -> -x: equal route cost'),
+        rep('overlaps-translate-n2', 2, 1, bounds='removeoverlaps on 2 rectangles translated by a multiple of 2^-10; ' + B_OVL),
+        rep('overlaps-repeat-n3', 2, 0, ['-DNR=3'], bounds='removeoverlaps on 3 rectangles under reversed heap order; ' + B_OVL),
+    ],
+}
+ASSUMPTIONS['C20'] = ['"irrespective of what was allocated in between" is modelled by unrelated allocations plus a reversal of the heap address order for the second run (executor option): this flips every comparison of addresses of distinct heap objects; other address permutations are outside the bound',
+                      'libcola layout positions (descent arithmetic) and polyline routing are outside the claim']
+
+# ----------------------------------------------------------------------------------------------- C06
+JOBS['C06'] = {
+    'quick': [Job('history-1step', 'C06_incremental.cpp', ['-DNSTEPS=1'], ['libavoid'], bounds='orthogonal Router, rectangle A=(20,20,60,60), connector with source in [0,10]x[30,50] and destination in [100,110]x[30,50]; every 1-step history from {move A by (dx,dy) in [-12,12]x[-45,45], delete A, add B=(70,10,90,70), move source to [0,10]x[0,80], empty transaction}')],
+    'thorough': [Job('history-2steps', 'C06_incremental.cpp', ['-DNSTEPS=2'], ['libavoid'], bounds='same scene, every 2-step history (25 operation sequences, symbolic parameters)')],
+}
+ASSUMPTIONS['C06'] = ['orthogonal routing only (polyline costs need sqrt of symbolic values); documented preconditions respected: no add+delete of one shape in a transaction, endpoints never inside a shape']
